@@ -325,7 +325,11 @@ func TestRecordSimple(t *testing.T) {
 	defer events.close()
 	n := envInt("SIMPLE_RUNS", 150)
 	base := int64(envInt("VERIF_SEED", 1))*7927 + int64(len(cfg.Name))
+	only := envInt("ONLY_RUN", 0)
 	for i := 1; i <= n; i++ {
+		if only != 0 && i != only {
+			continue
+		}
 		seed := base*100003 + int64(i)
 		steps := 15 + (i*31)%120
 		m, _ := json.Marshal(map[string]any{"cfg": cfg.Name, "run": i, "seed": seed, "steps": steps, "simple": true})
